@@ -71,6 +71,11 @@ def check(ctx):
     # search the same places (the directory of the top file is not one of them)
     srcs.append(("pp", {"sub/top.sv": "a\n`include \"sib.svh\"\nz\n", "sub/sib.svh": "`define WIDTH 8\nsib\n"}))
     srcs.append(("pp", {"sub/top.sv": "a\n`include \"sib.svh\"\nz `WIDTH\n", "sub/sib.svh": "`define WIDTH 8\n", "lib/sib.svh": "`define WIDTH 16\n"}))
+    # a top file (and an included file) whose last line has no line end and holds a one-line comment
+    srcs.append(("sv", "module m; endmodule // m"))
+    srcs.append(("pp", {"top.sv": "a // c", "x.svh": ""}))
+    srcs.append(("pp", {"top.sv": '`include "t.svh"\nb // last', "t.svh": "inc // tail"}))
+    srcs.append(("lib", "library l \"*.v\"; // last"))
     # the path of the top file spelled in a way that is not normal form: both entry points work under the spelling they are given
     # (`__FILE__, origins, the origin of a definition)
     for sp in ("sub//top.sv", "sub/./top.sv", "./sub/top.sv", "sub/../sub/top.sv", ".//top.sv"):
